@@ -992,3 +992,250 @@ pub fn exhaustive_ops(len: usize) -> Vec<Vec<Op>> {
     }
     out
 }
+
+// ---------------------------------------------------------------------------------------------
+// View level (C02b): which difficulty-object list did each path build?
+// ---------------------------------------------------------------------------------------------
+
+fn view_bits(mode: u8, r: &crate::viewsink::ViewRecord) -> String {
+    if mode == 1 || r.next0.is_empty() {
+        format!("{}:-", r.list_len)
+    } else {
+        format!(
+            "{}:{}",
+            r.list_len,
+            r.next0.iter().map(|b| if *b { '1' } else { '0' }).collect::<String>()
+        )
+    }
+}
+
+/// Number of objects the difficulty-object constructor iterates over (descriptor `n` of `GRADV`).
+pub fn ctor_input_len(p: &Prepared) -> usize {
+    match p.mode {
+        1 => {
+            if p.objs == "-" {
+                0
+            } else {
+                p.objs.len()
+            }
+        }
+        _ => p.units,
+    }
+}
+
+/// C02 view level.  For a set of prefixes `take` the real one-shot calculation and the real gradual
+/// constructor report — through the crate's view probe — the list of difficulty objects they built
+/// (length; per object whether `next(0)` is `Some`).  (1) `GRADV` correspondence lines: the model
+/// (`Model/GradualView.lean`) predicts both from `(mode, n, take)`.  (2) Direct oracle, independent
+/// of the model: on the positions the one-shot calculation processes, everything an evaluator of
+/// the mode may look at must be the same on both paths — osu!: `next(0)` availability; all modes:
+/// the processed position exists in both lists.
+pub fn check_views(run: &mut Run, case_id: &str, p: &Prepared) {
+    let gm = mode_of(p.mode);
+    let n = ctor_input_len(p);
+    let (g, grecs) = crate::viewsink::observe(|| new_gradual(p));
+    if g.is_err() {
+        return; // reported by check_walk
+    }
+    let grecs: Vec<_> = grecs.into_iter().filter(|r| r.path == 1).collect();
+    if grecs.len() != 1 || grecs[0].mode != p.mode {
+        run.fail(
+            "oracle:view-probe",
+            "",
+            case_id,
+            format!("gradual constructor reported {} lists: {:?}", grecs.len(), grecs),
+            p.repro(),
+        );
+        return;
+    }
+    let grad = &grecs[0];
+    let mut takes: Vec<u64> = if p.units <= 12 {
+        (0..=p.units as u64 + 1).collect()
+    } else {
+        let u = p.units as u64;
+        vec![0, 1, 2, 3, u / 2, u - 1, u, u + 1]
+    };
+    takes.push(u64::from(u32::MAX));
+    for take in takes {
+        let d = p.difficulty.clone().passed_objects(take as u32);
+        let (res, recs) = crate::viewsink::observe(|| one_shot(&d, &p.map, gm));
+        if res.is_err() {
+            continue; // reported elsewhere
+        }
+        let recs: Vec<_> = recs.into_iter().filter(|r| r.path == 0).collect();
+        if recs.len() != 1 || recs[0].mode != p.mode {
+            run.fail(
+                "oracle:view-probe",
+                "",
+                case_id,
+                format!("one-shot take={take} reported {} lists: {:?}", recs.len(), recs),
+                p.repro(),
+            );
+            continue;
+        }
+        let one = &recs[0];
+        run.line(
+            case_id,
+            format!("GRADV {} {} {}", mode_name(p.mode), n, take),
+            format!("one={} grad={}", view_bits(p.mode, one), view_bits(p.mode, grad)),
+        );
+        run.count("gradv:lines");
+        if one.list_len < grad.list_len {
+            run.count("gradv:one-shot-list-shorter");
+        }
+        // positions the one-shot calculation processes (taiko: at most the list; the exact count
+        // is tied by the GRAD / ONE lines)
+        let processed = match p.mode {
+            1 => 0,
+            _ => (take as usize).min(n).saturating_sub(1),
+        };
+        if p.mode != 1 && processed > one.list_len.min(grad.list_len) {
+            run.fail(
+                "oracle:view-list-too-short",
+                "",
+                case_id,
+                format!("take={take}: {processed} objects to process, lists {} / {}", one.list_len, grad.list_len),
+                p.repro(),
+            );
+        }
+        if p.mode == 0 && processed > 0 {
+            // Speed reads `curr.next(0, ..)`
+            let differs = (0..processed.min(one.next0.len()).min(grad.next0.len()))
+                .find(|&i| one.next0[i] != grad.next0[i]);
+            if grad.next0.get(processed - 1).copied().unwrap_or(false) {
+                run.count("gradv:boundary-has-next");
+            }
+            if let Some(i) = differs {
+                run.fail(
+                    "oracle:view-lookahead-differs",
+                    "",
+                    case_id,
+                    format!(
+                        "passed_objects({take}): difficulty object {i} has next(0)={} on the one-shot path (list of {}) but {} on the gradual path (list of {})",
+                        one.next0[i], one.list_len, grad.next0[i], grad.list_len
+                    ),
+                    p.repro(),
+                );
+            }
+        }
+    }
+}
+
+/// Maps built so that what lies just AFTER a prefix boundary matters to an evaluator that looks
+/// ahead (and would matter to the others if they did): every prefix is compared by `check_walk`.
+pub fn lookahead_cases(seed: u64, n_random: usize) -> Vec<CaseSource> {
+    let mut rng = Rng::new(seed ^ 0x6c6f_6f6b_6168_6561);
+    let mut v = Vec::new();
+    let circle = |x: i32, y: i32, t: f64, sound: u8| ObjSpec { x, y, time: t, sound, kind: ObjKind::Circle };
+    for i in 0..n_random {
+        let mode = (i % 4) as u8;
+        let n = 4 + rng.below(9) as usize;
+        let mut objects = Vec::new();
+        let mut t = 0.0f64;
+        let mut spec = MapSpec { mode, ..Default::default() };
+        match mode {
+            0 => {
+                // doubletappable pairs (delta below the great window) followed by a very different
+                // delta: `Speed`'s doubletapness of the note at the boundary depends on the NEXT delta
+                spec.od = *rng.pick(&[3.0f32, 4.0, 5.0]);
+                spec.ar = 9.0;
+                let short = *rng.pick(&[40.0f64, 50.0, 60.0, 70.0]);
+                let long = *rng.pick(&[300.0f64, 440.0, 600.0]);
+                let mut x = 100;
+                for k in 0..n {
+                    objects.push(circle(x, 150 + (k as i32 % 3) * 20, t, 0));
+                    let pattern = rng.below(4);
+                    t += if (k + pattern as usize) % 2 == 0 { short } else { long };
+                    if rng.chance(1, 5) {
+                        t += short;
+                    }
+                    x = 60 + rng.below(400) as i32;
+                }
+            }
+            1 => {
+                // colour and rhythm changes straddling every boundary: runs of dons / kats of
+                // random lengths, interval changes in the middle of a run, a drum roll now and then
+                let mut kat = false;
+                let mut gap = *rng.pick(&[100.0f64, 125.0, 150.0, 250.0]);
+                let mut k = 0;
+                while k < n {
+                    let run_len = 1 + rng.below(4) as usize;
+                    for _ in 0..run_len {
+                        if rng.chance(1, 9) {
+                            objects.push(ObjSpec {
+                                x: 100,
+                                y: 100,
+                                time: t,
+                                sound: 0,
+                                kind: ObjKind::Slider { curve: 'L', points: vec![(250, 100)], slides: 1, length: 150.0 },
+                            });
+                            t += 600.0;
+                        } else {
+                            objects.push(circle(256, 192, t, if kat { 8 } else { 0 }));
+                            t += gap;
+                        }
+                        k += 1;
+                        if rng.chance(1, 4) {
+                            gap = *rng.pick(&[75.0f64, 100.0, 125.0, 150.0, 200.0, 250.0, 400.0]);
+                        }
+                    }
+                    kat = !kat;
+                }
+            }
+            2 => {
+                // hyperdash pairs: far apart in x, close in time, alternating with walkable ones
+                spec.cs = *rng.pick(&[3.0f32, 4.0, 5.0]);
+                let mut left = true;
+                for _ in 0..n {
+                    let far = rng.chance(1, 2);
+                    let x = if far {
+                        if left { 30 } else { 480 }
+                    } else {
+                        200 + rng.below(100) as i32
+                    };
+                    left = !left;
+                    if rng.chance(1, 6) {
+                        objects.push(ObjSpec {
+                            x,
+                            y: 100,
+                            time: t,
+                            sound: 0,
+                            kind: ObjKind::Slider { curve: 'L', points: vec![(x + 150, 100)], slides: 1, length: 140.0 },
+                        });
+                        t += 500.0;
+                    } else {
+                        objects.push(circle(x, 100, t, 0));
+                        t += *rng.pick(&[90.0f64, 120.0, 180.0, 400.0]);
+                    }
+                }
+            }
+            _ => {
+                // chords and overlapping holds straddling every boundary (4K)
+                spec.cs = 4.0;
+                let cols = [64, 192, 320, 448];
+                for _ in 0..n {
+                    let x = *rng.pick(&cols);
+                    if rng.chance(1, 2) {
+                        let dur = *rng.pick(&[100.0f64, 150.0, 300.0, 700.0]);
+                        objects.push(ObjSpec { x, y: 192, time: t, sound: 0, kind: ObjKind::Hold { end: t + dur } });
+                    } else {
+                        objects.push(circle(x, 192, t, 0));
+                    }
+                    // same time (chord) one time in three
+                    if !rng.chance(1, 3) {
+                        t += *rng.pick(&[50.0f64, 100.0, 125.0, 250.0]);
+                    }
+                }
+            }
+        }
+        spec.objects = objects;
+        let settings = if rng.chance(1, 2) { Settings::default() } else { random_settings(&mut rng, mode) };
+        v.push(CaseSource {
+            id: format!("look-{i}-{}-{}", mode_name(mode), spec.kinds()),
+            text: spec.render(),
+            mode,
+            settings,
+        });
+    }
+    v
+}
